@@ -131,7 +131,7 @@ class Scenario:
             idx = self.index_of[tuple(spec["at"])]
             # `live`: the clamp is built from the vertex' own position array (the idiom of the examples)
             clamp = self.make_clamp(spec, self.mesh.vertices[idx].position if live else self.initial[idx])
-            self.opt.add_clamp(clamp)
+            self._setup("clamp", clamp, lambda c=clamp: self.opt.add_clamp(c))
             self.clamps.append((spec, clamp, idx))
         self.rejected = []  # outcome of add_link for links that must be refused (follower is no point of the grid)
         for spec in case["links"]:
@@ -141,7 +141,7 @@ class Scenario:
                 link = self.make_link(spec, self.mesh.vertices[li].position, self.mesh.vertices[fi].position)
             else:
                 link = self.make_link(spec, self.initial[li], self.initial[fi])
-            self.opt.add_link(link)
+            self._setup("link", link, lambda l=link: self.opt.add_link(l))
             self.links.append((spec, link, li, fi))
         from classy_blocks.optimize.grid import InvalidLinkError
 
@@ -150,10 +150,46 @@ class Scenario:
             li = self.index_of[tuple(spec["leader"])]
             link = self.make_link(spec, self.initial[li], _to_world(case, spec["phantom"]))
             try:
-                self.opt.add_link(link)
+                self._setup("link", link, lambda l=link: self.opt.add_link(l))
                 self.rejected.append("accepted")
             except InvalidLinkError:
                 self.rejected.append("InvalidLinkError")
+
+    def _setup(self, kind: str, obj, call) -> None:
+        """performs one add_clamp / add_link call and logs arguments, outcome and what the grid has registered
+        afterwards (round 5: the set-up path is part of the model, request `c13.setup`)"""
+        if not hasattr(self, "setup_log"):
+            self.setup_log: List[dict] = []
+            self._setup_ids: Dict[int, int] = {}
+            self._setup_keep: List[Any] = []
+        ident = len(self.setup_log)
+        self._setup_ids[id(obj)] = ident
+        self._setup_keep.append(obj)
+        entry: Dict[str, Any] = {"kind": kind, "id": ident}
+        if kind == "clamp":
+            entry["pos"] = [float(x) for x in obj.position]
+        else:
+            entry["leader"] = [float(x) for x in obj.leader]
+            entry["follower"] = [float(x) for x in obj.follower]
+        err = None
+        try:
+            call()
+        except Exception as e:
+            name = type(e).__name__
+            if name not in ("NoJunctionError", "ClampExistsError", "InvalidLinkError"):
+                raise
+            if name == "InvalidLinkError":
+                msg = str(e)
+                name += ":leader" if msg.startswith("Leader not found") else (":follower" if msg.startswith("Follower not found") else ":same")
+            err = (name, e)
+        grid = self.opt.grid
+        n = len(grid.points)
+        entry["err"] = err[0] if err else None
+        entry["C"] = [[jn.index, self._setup_ids.get(id(jn.clamp), -1)] for jn in grid.junctions if jn.clamp is not None]
+        entry["L"] = [[jn.index, il.follower_index % n, self._setup_ids.get(id(il.link), -1)] for jn in grid.junctions for il in jn.links]
+        self.setup_log.append(entry)
+        if err:
+            raise err[1]
 
     # local frame of a clamp spec, in world coordinates
     def _frame(self, spec):
@@ -1047,6 +1083,13 @@ class C13(core.Check):
             obs["case_clamps"] = [[-1, sc.index_of[p]] for p in sc.lat if 0 < p[0] < case["dims"][0] and 0 < p[1] < case["dims"][1]]
         obs["case_links"] = [[li, fi] for _, _, li, fi in sc.links]
         obs["rejected"] = sc.rejected
+        from classy_blocks.util import constants as cb_constants
+
+        obs["setup"] = None if case.get("auto") else {
+            "log": getattr(sc, "setup_log", []),
+            "pts": [[float(x) for x in p] for p in sc.initial],
+            "tol": float(cb_constants.TOL),  # read from the source at run time
+        }
         obs["orig_pts0"] = per_call[0]["pts0"]
         obs["orig_q0"] = per_call[0]["q0"]
         obs["pos"] = [[k[0], k[1], v] for k, v in rec.pos.items()]
@@ -1090,7 +1133,19 @@ class C13(core.Check):
     def requests(self, case: dict, impl: Any) -> List[str]:
         if "setup_error" in impl:
             return []
-        return [self._request_one(case, c) for c in self._per_call(impl)]
+        lines = [self._request_one(case, c) for c in self._per_call(impl)]
+        su = impl.get("setup")
+        if su and su["log"]:
+            v3 = lambda p: ",".join(core.rat(x) for x in p)
+            ops = []
+            for e in su["log"]:
+                if e["kind"] == "clamp":
+                    ops.append(f"clamp:{e['id']}:{v3(e['pos'])}")
+                else:
+                    ops.append(f"link:{e['id']}:{v3(e['leader'])}:{v3(e['follower'])}")
+            tol2 = Fraction(su["tol"]) ** 2
+            lines.append(f"c13.setup {core.rat(tol2)} " + ";".join(v3(p) for p in su["pts"]) + " " + ";".join(ops))
+        return lines
 
     def _request_one(self, case: dict, impl: Any) -> str:
         its = self._iterations(impl)
@@ -1135,10 +1190,36 @@ class C13(core.Check):
             got_l = sorted([l[0], l[1]] for l in c["links"])
             if got_l != sorted(impl["case_links"]):
                 return f"the grid has the links (leader, follower) {got_l} registered, successfully added were {sorted(impl['case_links'])}"
+        su = impl.get("setup")
+        if su and su["log"]:
+            why = self._compare_setup(su, model[-1])
+            if why:
+                return "set-up: " + why
         for n, (c, ans) in enumerate(zip(self._per_call(impl), model)):
             why = self._compare_one(case, c, ans)
             if why:
                 return (f"optimize() call {n + 1}: " if len(model) > 1 else "") + why
+        return None
+
+    @staticmethod
+    def _compare_setup(su: dict, ans: str) -> Optional[str]:
+        """after every add_clamp / add_link call: outcome and registration of the grid = the model's"""
+        if ans == "bad-op":
+            return "model rejects the request (bad-op)"
+        steps = ans.split("|")
+        if len(steps) != len(su["log"]):
+            return f"{len(steps)} model steps for {len(su['log'])} calls"
+        for e, st in zip(su["log"], steps):
+            out, c, l, _i = st.split("_")
+            lst = lambda x: [tuple(int(v) for v in t.split(":")) for t in x[2:-1].split(",") if t]
+            what = f"{e['kind']} #{e['id']}"
+            if out != (e["err"] or "ok"):
+                return f"{what}: implementation {'raised ' + e['err'] if e['err'] else 'accepted'}, model says {out}"
+            if sorted(lst(c)) != sorted(tuple(x) for x in e["C"]):
+                return f"after {what}: grid has clamps (junction, id) {sorted(e['C'])}, model {sorted(lst(c))}"
+            ml = sorted(lst(l), key=lambda t: t[0])  # stable: per leader in the order of the calls
+            if ml != [tuple(x) for x in e["L"]]:
+                return f"after {what}: grid has links (leader, follower, id) {e['L']}, model {ml}"
         return None
 
     def _compare_one(self, case: dict, impl: Any, ans: str) -> Optional[str]:
